@@ -59,6 +59,19 @@ func c02Graph(c *c02Case) *gen.Graph {
 			g.Connect(a, e, nil)
 			continue
 		}
+		if c.Shape == "sub" {
+			// the chain runs through an embedded sub-process (which has a start event of its own)
+			sp := g.Add(gen.Sub, fmt.Sprintf("sp%d", i), "")
+			is := g.Add(gen.Start, fmt.Sprintf("is%d", i), sp.ID)
+			a := g.Add(gen.Task, fmt.Sprintf("a%d", i), sp.ID)
+			ie := g.Add(gen.End, fmt.Sprintf("ie%d", i), sp.ID)
+			e := g.Add(gen.End, fmt.Sprintf("end%d", i), "")
+			g.Connect(s, sp, nil)
+			g.Connect(is, a, nil)
+			g.Connect(a, ie, nil)
+			g.Connect(sp, e, nil)
+			continue
+		}
 		if c.Shape == "short" && i == 1 {
 			e := g.Add(gen.End, "end1", "")
 			g.Connect(s, e, nil)
@@ -79,9 +92,9 @@ func c02Graph(c *c02Case) *gen.Graph {
 func c02Cases(tier string, seed uint64) []fw.Case {
 	var cs []fw.Case
 	for starts := 1; starts <= 3; starts++ {
-		shapes := []string{"ind", "join", "short", "forkend"}
+		shapes := []string{"ind", "join", "short", "forkend", "sub"}
 		if starts == 1 {
-			shapes = []string{"ind", "short", "forkend"}
+			shapes = []string{"ind", "short", "forkend", "sub"}
 		}
 		for _, shape := range shapes {
 			modes := []string{"all", "each"}
